@@ -29,6 +29,7 @@ fn op_cost(op: &Op) -> u32 {
         Op::Liquidate { .. } => 24,
         Op::Receivership { .. } => 12,
         Op::Flash { .. } => 12,
+        Op::Sunset { .. } => 12,
         Op::Bankrupt { .. } => 12,
         _ => 4,
     }
@@ -153,7 +154,7 @@ pub fn c02_step(st: &mut C02State, pre: &StoreSnap, post: &StoreSnap, step: &Ste
     }
     // every instruction that closes a position abandons that slot's sub-dust residue (the other
     // side of a withdraw_all / repay_all, or both sides of close_balance / account close)
-    let closing_op = matches!(step.op, Op::CloseBalance { .. } | Op::CloseAccount { .. } | Op::Withdraw { all: true, .. } | Op::Repay { all: true, .. } | Op::Flash { repay: true, .. });
+    let closing_op = matches!(step.op, Op::CloseBalance { .. } | Op::CloseAccount { .. } | Op::Withdraw { all: true, .. } | Op::Repay { all: true, .. } | Op::Flash { repay: true, .. } | Op::Sunset { step: 2, .. } | Op::Sunset { step: 3, .. });
     for (k, b1) in &post.banks {
         let Some(b0) = pre.banks.get(k) else { continue };
         let (sa0, sl0) = sums_of(pre, k);
@@ -189,7 +190,7 @@ pub fn c02_step(st: &mut C02State, pre: &StoreSnap, post: &StoreSnap, step: &Ste
                 st.closures += 1;
                 st.max_abandoned_value = st.max_abandoned_value.max(q_f64(&va)).max(q_f64(&vl));
                 let (lim_a, lim_l, what) = match step.op {
-                    Op::CloseBalance { .. } | Op::Withdraw { .. } | Op::Repay { .. } | Op::Flash { .. } => (threshold_0001(), threshold_0001(), "0.0001 units"),
+                    Op::CloseBalance { .. } | Op::Withdraw { .. } | Op::Repay { .. } | Op::Flash { .. } | Op::Sunset { .. } => (threshold_0001(), threshold_0001(), "0.0001 units"),
                     // account close: each slot's residue must be an empty position (< 1 share)
                     _ => (q_int(16) * q_max(q_one(), b1.asv.clone()), q_int(16) * q_max(q_one(), b1.lsv.clone()), "1 share per slot"),
                 };
